@@ -2,7 +2,8 @@
    Only statements, each closed by [exact]; proofs live in Lemmas/. *)
 From Coq Require Import ZArith List Bool.
 From Model Require Import Base Arith.
-From Lemmas Require Import ArithLemmas.
+From Model Require Import Block Examples.
+From Lemmas Require Import ArithLemmas HoldingLemmas.
 Open Scope Z_scope.
 
 (* The amount credited is floor(input x source rate / destination rate); once averaging is
@@ -31,6 +32,28 @@ Theorem C07_convert_value_nonincreasing : forall pip10 amt fr fa tr ta out,
   convert pip10 amt fr fa tr ta = Some out -> out * tr <= amt * fr.
 Proof. exact convert_value_nonincreasing. Qed.
 Print Assumptions C07_convert_value_nonincreasing.
+
+(* A conversion submitted in block h is NOT executed by block h: the batch gets its history rows
+   (status pending) and a holding row at h, and no balance moves.  (That a held batch is then
+   executed only by a block that has rates, with that block's rates and the averages of the last
+   rated height before it, is the structure of [sync_block] / [apply_holding]; the chain-level tie
+   replays graded / ungraded patterns, including unrated snapshot heights, through the real node.) *)
+Theorem C07_conversion_waits_in_holding : forall c h s order e txs s',
+  entry_valid_at c e h = Some txs -> has_conversions txs = true ->
+  is_replay s (e_hash e) = false -> hist_has s (e_hash e) = false ->
+  apply_entry c h s order e = Ok s' ->
+  bal s' = bal s /\ holding s' = holding s ++ [{| h_entry := e; h_height := h |}] /\
+  exists s1, insert_history s e order h txs = Ok s1.
+Proof. exact conversion_waits_in_holding. Qed.
+Print Assumptions C07_conversion_waits_in_holding.
+
+(* in the example chain the conversion entered at 102 is pending through the unrated block 103 and
+   executes at 104 with 104's rates: 20 pFCT at 4 USD -> 80 pUSD *)
+Example C07_chain_example :
+  exists s m, replay ex_cfg genesis empty_cache ex_chain = Done (s, m) /\
+              existsb (fun r => (hb_hash r =? 602) && (hb_height r =? 102) && (hb_exec r =? 104)) (hist s) = true /\
+              get_bal (bal s) alice 2 = 80.
+Proof. vm_compute. eexists _, _. repeat split; reflexivity. Qed.
 
 Example C07_convert_example :
   convert true 1000 300 250 7 9 = Some (1000 * 250 / 9) /\ convert false 1000 300 250 7 9 = Some (1000 * 300 / 7).
